@@ -274,15 +274,25 @@ class MovingWindow(BackgroundService):
                     f"Timestamp {key} is out of range [{self._buffer.oldest_timestamp}, "
                     f"{self._buffer.newest_timestamp}]"
                 )
-            return self._buffer[self._buffer.to_internal_index(key)]
-
-        if isinstance(key, int):
+            timestamp = key
+        elif isinstance(key, int):
             _logger.debug("Returning value at index %s ", key)
-            timestamp = self._buffer.get_timestamp(key)
-            assert timestamp is not None
-            return self._buffer[self._buffer.to_internal_index(timestamp)]
+            count_covered = self._buffer.count_covered()
+            if not -count_covered <= key < count_covered:
+                raise IndexError(
+                    f"Index {key} is out of range [-{count_covered}, {count_covered})"
+                )
+            index_timestamp = self._buffer.get_timestamp(key)
+            assert index_timestamp is not None
+            timestamp = index_timestamp
+        else:
+            raise TypeError("Key has to be either a timestamp or an integer.")
 
-        raise TypeError("Key has to be either a timestamp or an integer.")
+        # Slots inside a gap were never written or hold outdated data, same as
+        # the default `fill_value` of `window()`.
+        if self._buffer.is_missing(self._buffer.normalize_timestamp(timestamp)):
+            return np.nan
+        return self._buffer[self._buffer.to_internal_index(timestamp)]
 
     def window(
         self,
